@@ -97,8 +97,14 @@ func init() {
 				emit(M{"f": "ident.parseClient", "s": s})
 				emit(M{"f": "ident.isClientFormat", "s": s})
 				emit(M{"f": Pick(r, []string{"ident.formatChannel", "ident.formatConnection"}), "seq": U(r.Num64())})
-				pre := Pick(r, []string{"channel-", "connection-", "channel", "chan-", "channel-channel-", ""})
-				emit(M{"f": Pick(r, []string{"ident.parseChannel", "ident.parseConnection"}), "s": pre + seqString(r)})
+				fn, pre := "ident.parseChannel", "channel-"
+				if r.Bool() {
+					fn, pre = "ident.parseConnection", "connection-"
+				}
+				if r.Chance(0.25) {
+					pre = Pick(r, []string{"channel-", "connection-", "channel", "chan-", "channel-channel-", "connection-connection-", ""})
+				}
+				emit(M{"f": fn, "s": pre + seqString(r)})
 			}
 		},
 		Monitor: func(r *Rng, n int, report func(Violation)) {
